@@ -521,6 +521,42 @@ func c08r5(c *core.Ctx) {
 
 // ---------------------------------------------------------------- C09 additions
 
+// encodesParamAsJSON: parameter k of g is what g (or a module function it hands it to) gives to encoding/json
+func encodesParamAsJSON(g *ssa.Function, k, depth int) bool {
+	if g == nil || depth == 0 || k >= len(g.Params) {
+		return false
+	}
+	found := false
+	core.Instrs(g, func(i ssa.Instruction) {
+		call, ok := i.(ssa.CallInstruction)
+		if !ok || found {
+			return
+		}
+		h := call.Common().StaticCallee()
+		if h == nil {
+			return
+		}
+		for j, a := range call.Common().Args {
+			if core.StripConv(a) != ssa.Value(g.Params[k]) {
+				continue
+			}
+			if h.Pkg != nil && h.Pkg.Pkg.Path() == "encoding/json" && (h.Name() == "Encode" || h.Name() == "Marshal" || h.Name() == "MarshalIndent") {
+				found = true
+			} else if core.InModule(h) && encodesParamAsJSON(h, j, depth-1) {
+				found = true
+			}
+		}
+	})
+	return found
+}
+
+func recvOffset(g *ssa.Function) int {
+	if g.Signature.Recv() != nil {
+		return 1
+	}
+	return 0
+}
+
 func c09r6(c *core.Ctx) {
 	p := c.P
 	// handlers encode live state: no cached encodings on the shared server object
@@ -534,11 +570,17 @@ func c09r6(c *core.Ctx) {
 	if f := p.Func("hap/http", "(*Server).Accessories"); f != nil {
 		ok := false
 		core.Instrs(f, func(i ssa.Instruction) {
-			if g := core.Callee(i); g != nil && cn(g) == "WriteJSON" {
-				if mi, isMI := core.Args(i)[2].(*ssa.MakeInterface); isMI {
-					if _, isField := core.FieldLoad(mi.X, mod+"/hap/http.Server", "container"); isField {
-						ok = true
-					}
+			g := core.Callee(i)
+			if g == nil || !core.InModule(g) {
+				return
+			}
+			for k, a := range core.Args(i) {
+				mi, isMI := a.(*ssa.MakeInterface)
+				if !isMI {
+					continue
+				}
+				if _, isField := core.FieldLoad(mi.X, mod+"/hap/http.Server", "container"); isField && encodesParamAsJSON(g, k+recvOffset(g), 3) {
+					ok = true
 				}
 			}
 		})
